@@ -20,6 +20,7 @@ type Seg struct {
 	S   string `json:"s,omitempty"` // text, literal content, comment source
 	O   string `json:"o,omitempty"` // tag: its output
 	N   string `json:"n,omitempty"` // sc: sp nil n r t lb rb
+	D   bool   `json:"d,omitempty"` // lit: opened with double braces
 	Src string `json:"src,omitempty"`
 }
 
@@ -29,6 +30,9 @@ func (g Seg) record() map[string]interface{} {
 		return map[string]interface{}{"k": g.K, "o": g.O}
 	case "sc":
 		return map[string]interface{}{"k": g.K, "n": g.N}
+	}
+	if g.K == "lit" {
+		return map[string]interface{}{"k": g.K, "s": g.S, "d": g.D}
 	}
 	return map[string]interface{}{"k": g.K, "s": g.S}
 }
@@ -43,6 +47,9 @@ func (g Seg) source() string {
 	case "sc":
 		return scSource[g.N]
 	case "lit":
+		if g.D {
+			return "{{literal}}" + g.S + "{{/literal}}"
+		}
 		return "{literal}" + g.S + "{/literal}"
 	}
 	return g.S
@@ -51,6 +58,7 @@ func (g Seg) source() string {
 func text(s string) Seg { return Seg{K: "text", S: s} }
 func sc(n string) Seg   { return Seg{K: "sc", N: n} }
 func lit(s string) Seg  { return Seg{K: "lit", S: s} }
+func lit2(s string) Seg { return Seg{K: "lit", S: s, D: true} }
 func bcom(s string) Seg { return Seg{K: "bcom", S: s} }
 func lcom(s string) Seg { return Seg{K: "lcom", S: s} }
 func tagPrint() Seg     { return Seg{K: "tag", Src: "{$x}", O: "X"} }
@@ -177,7 +185,9 @@ func ValidateLines(ctx *core.Ctx, lines []*Line, label string) (bad []*Line, jud
 // Systematic lines: examples, special characters, literals.
 
 func exampleLines() []*Line {
-	mk := func(prefix string, segs ...Seg) *Line { return &Line{Kind: "trace", Origin: "example", Segs: segs, FilePrefix: prefix} }
+	mk := func(prefix string, segs ...Seg) *Line {
+		return &Line{Kind: "trace", Origin: "example", Segs: segs, FilePrefix: prefix}
+	}
 	return []*Line{
 		// text such as http://x is not mistaken for a comment
 		mk("", text("http://x")),
@@ -198,6 +208,13 @@ func exampleLines() []*Line {
 		mk("\n  // indented file comment\n", text(" a ")),
 		// literal blocks and special characters
 		mk("", lit(" {/call}\n {sp} // comment ")),
+		// the double-brace form ends at {{/literal}} only
+		mk("", lit2("a{/literal}b")),
+		mk("", text("x "), lit2("<{/literal}>"), text(" y")),
+		mk("", lit2("{literal}...{/literal} emits ... as is")),
+		mk("", lit2("a{b}c")),
+		mk("", lit("a{{b}}c {")),
+		mk("", text("a\n"), lit2("/literal} {/literal} \n  // c\n /* d */ {sp}\"'"), text("\nb")),
 		mk("", text("a\n"), lit("\n { } // x /* y */ \n"), text("\nb")),
 		mk("", sc("sp"), sc("nil"), sc("r"), sc("n"), sc("t"), sc("lb"), sc("rb")),
 		mk("", text("a\n"), sc("sp"), text("\nb")),
@@ -307,6 +324,8 @@ func randFrom(r *rand.Rand, alpha []rune, min, max int) string {
 	return b.String()
 }
 
+var litHazards = []string{"{/literal}", "{{/literal}}", "/literal}", "{literal}", "{{literal}}", " // c\n", "/* c */", "\n    ", "{sp}", "{nil}", "{lb}", "{$y}", "{call .u/}", "\"", "'", "{/template}"}
+
 func endsInWs(s string) bool { return s != "" && isWsByte(s[len(s)-1]) }
 
 func randomLine(r *rand.Rand) *Line {
@@ -338,7 +357,28 @@ func randomLine(r *rand.Rand) *Line {
 		case x < 68:
 			segs = append(segs, sc(scNames[r.Intn(len(scNames))]))
 		case x < 76:
-			segs = append(segs, lit(randFrom(r, []rune{'a', '{', '}', '\n', ' ', '/', '*', '\u00e9', '\u00a0', '\t'}, 1, 8)))
+			// literal body: characters and hazards; never its own closing tag
+			dbl := r.Intn(2) == 0
+			var b strings.Builder
+			for k := 1 + r.Intn(5); k > 0; k-- {
+				if r.Intn(3) == 0 {
+					b.WriteString(litHazards[r.Intn(len(litHazards))])
+				} else {
+					b.WriteString(randFrom(r, []rune{'a', '{', '}', '\n', ' ', '/', '*', '\u00e9', '\u00a0', '\t'}, 1, 3))
+				}
+			}
+			body := b.String()
+			closer := "{/literal}"
+			if dbl {
+				closer = "{{/literal}}"
+			}
+			for strings.Contains(body, closer) {
+				body = strings.Replace(body, closer, "{/lit}", 1)
+			}
+			if body == "" {
+				body = "a"
+			}
+			segs = append(segs, Seg{K: "lit", S: body, D: dbl})
 		case x < 88:
 			// content may hold '*' and '/' but neither "*/" nor a leading '*'
 			c := strings.ReplaceAll(randFrom(r, []rune{'a', ' ', '\n', '{', '}', '/', '*', '*', '\u00e9'}, 0, 8), "*/", "*a/")
